@@ -80,6 +80,8 @@ def parse_cmd(s):
         return (k, w[1], parse_atom(w[2]))
     if k == "sw":
         return (k, w[1])
+    if k == "or":
+        return (k,)
     raise ValueError("bad cmd %r" % s)
 
 
@@ -216,6 +218,57 @@ def random_history(rng, kind="ts", maxops=10):
         if c.startswith("ad "):
             cur.add(c.split()[1])
     return "%s|%s|[%s]|%s" % (kind, v, ",".join(init), ";".join(cmds))
+
+
+TRAITS = ["Int", "CInt", "CStr", "Range05", "Any"]
+# what a trait accepts unchanged / converts / rejects, among the atoms
+TRAIT_ITEMS = {"Int": (["i1", "i7", "i-1"], [], ["s3", "s9"]),
+               "CInt": (["i1", "i7"], ["s3", "s9"], []),
+               "CStr": (["s3", "s9"], ["i1", "i7"], []),
+               "Range05": (["i1", "i4", "i0"], [], ["i7", "i-1", "s3"]),
+               "Any": (["i1", "s3", "i7"], [], [])}
+OBJ_PREFIXES = ["", "sw d", "or", "sw d;or", "or;sw d", "sw c", "sw p", "sw c;sw d", "sw d;sw d", "sw c;or", "sw p;sw d"]
+
+
+def trait_value_cases():
+    """The value of a Set(<trait>) trait on a HasTraits owner: live, deep-copied, orphaned (owner deleted
+    and collected), copied, unpickled (and combinations) x every mutator with valid / convertible /
+    invalid items."""
+    for t in TRAITS:
+        ok, conv, bad = TRAIT_ITEMS[t]
+        init = "[%s]" % ",".join(ok[:2])
+        probes = ok[-1:] + conv[:1] + bad[:2]
+        for pre in OBJ_PREFIXES:
+            head = "to|%s|%s|%s" % (t, init, pre + ";" if pre else "")
+            for x in probes:
+                yield head + "ad %s" % x
+                yield head + "ud L[%s] L[%s]" % (ok[-1], x)
+                yield head + "io S[%s,%s]" % (ok[-1], x)
+                yield head + "ix S[%s,%s]" % (ok[0], x)
+                yield head + "sy L[%s,%s]" % (ok[0], x)
+                for k in "cdp":
+                    yield head + "cp %s %s" % (k, x)
+            yield head + "rm %s;dc %s;du L[%s];iu S[%s];po ?;cl" % (ok[0], ok[1], ok[0], ok[1])
+            yield head + "io L[%s];ia L[%s];is S[%s];ia S[%s]" % (ok[0], ok[0], ok[0], ok[1])
+
+
+def random_trait_history(rng, maxops=10):
+    t = rng.choice(TRAITS)
+    ok, conv, bad = TRAIT_ITEMS[t]
+    init = [rng.choice(ok) for _ in range(rng.randint(0, 4))]
+    cur = set(init)
+    cmds = []
+    for _ in range(rng.randint(1, maxops)):
+        r = rng.random()
+        if r < 0.12:
+            cmds.append("sw %s" % rng.choice("dddcp"))
+        elif r < 0.18:
+            cmds.append("or")
+        elif r < 0.28:
+            cmds.append("cp %s %s" % (rng.choice("dddcp"), rng.choice(ok + conv + bad)))
+        else:
+            cmds.append(random_cmd(rng, cur, neg=True, strs=True, copies=False))
+    return "to|%s|[%s]|%s" % (t, ",".join(init), ";".join(cmds))
 
 
 def exhaustive_single_ops(tier, kind="ts"):
